@@ -174,6 +174,17 @@ func runCheck(repo, prop, tier string, keep bool, only string, verbose bool) int
 			jobs = append(jobs, job{full, c})
 		}
 	}
+	var sweptNames []string
+	if prop == "C13" {
+		sj := P.sweepJobs()
+		for _, key := range sortedKeys(sj) {
+			if only != "" && !strings.Contains(key, only) {
+				continue
+			}
+			jobs = append(jobs, job{key, sj[key]})
+			sweptNames = append(sweptNames, key)
+		}
+	}
 	if len(jobs) == 0 && len(bindingLost) == 0 {
 		fmt.Fprintf(os.Stderr, "govc: no contracts for property %s\n", prop)
 		return 2
@@ -218,7 +229,12 @@ func runCheck(repo, prop, tier string, keep bool, only string, verbose bool) int
 		if x.abstract {
 			rep.Abstracted = true
 			abstracted = append(abstracted, j.key)
-			continue
+			if j.c.Options["sweep"] != "true" {
+				continue
+			}
+			// sweep: lock-discipline obligations found before the function
+			// left the subset are still valid checks of the explored prefix
+			x.exitPCs = nil
 		}
 		// exit-reachability canary
 		if len(x.exitPCs) > 0 {
@@ -417,6 +433,7 @@ func runCheck(repo, prop, tier string, keep bool, only string, verbose bool) int
 			"abstracted_functions":      abstracted,
 			"binding_lost":              bindingLost,
 			"known_finding_obligations": knownNames,
+			"swept_without_contract":    sweptNames,
 			"canaries_checked":          nCanary,
 			"canaries_failed_as_required": nCanary - len(brokenCanaries),
 			"per_obligation_timeout_s":  timeout,
@@ -447,6 +464,11 @@ func obligationInProperty(o *Obligation, c *FuncContract, prop string) bool {
 	lockKind := strings.HasPrefix(o.Kind, "guarded-") || o.Kind == "guarded-call" || o.Kind == "guarded-escape" || o.Kind == "lock-not-held" || o.Kind == "unlock-held" || o.Kind == "wait-holds-lock" || o.Kind == "runlock-held" ||
 		(o.Kind == "call-pre" && strings.Contains(o.Detail, "held("))
 	if prop == "C13" {
+		if c.Options["sweep"] == "true" {
+			// thin contract: only direct mutex guards are decidable without
+			// invariants (owner-ghost guards and callee preconditions are not)
+			return (strings.HasPrefix(o.Kind, "guarded-") && !strings.Contains(o.Detail, "ghost:") && o.Kind != "guarded-call") || o.Kind == "unlock-held" || o.Kind == "wait-holds-lock"
+		}
 		return lockKind && hasProp(c.Props, "C13")
 	}
 	if strings.HasPrefix(o.Kind, "guarded-") {
